@@ -29,7 +29,7 @@ pub struct Case {
 pub struct C10;
 
 fn hop_url() -> BoxedStrategy<UrlSpec> {
-    urlgen::url_spec(true, false)
+    urlgen::url_spec(true, true)
         .prop_map(|mut u| {
             u.fragment = None;
             // https through a proxy to an IPv6 literal is excluded (see C08)
